@@ -65,20 +65,36 @@ func genOverlay(o overlayOpts) (string, string, error) {
 			if err != nil {
 				return nil // a file that does not parse is left to the compiler to report
 			}
+			// edits are collected per file (a file of the layout scheme gets two) and applied back to front
+			type edit struct {
+				start, end int
+				repl       string
+			}
+			var edits []edit
+			rel, _ := filepath.Rel(o.repo, p)
+			inLayout := strings.HasPrefix(filepath.ToSlash(rel), "scheme/ocidir/")
 			for _, imp := range f.Imports {
-				if imp.Path.Value != `"sync"` {
+				var repl string
+				switch {
+				case imp.Path.Value == `"sync"`:
+					repl = `"` + modPath + `/internal/verif/vsync"`
+					if imp.Name == nil {
+						repl = "sync " + repl
+					}
+				case imp.Path.Value == `"os"` && inLayout && imp.Name == nil:
+					// file operations of the layout scheme become (opt-in) scheduling points
+					repl = `os "` + modPath + `/internal/verif/vos"`
+				default:
 					continue
 				}
-				start := fset.Position(imp.Path.Pos()).Offset
-				end := fset.Position(imp.Path.End()).Offset
-				repl := `"` + modPath + `/internal/verif/vsync"`
-				if imp.Name == nil {
-					repl = "sync " + repl
+				edits = append(edits, edit{fset.Position(imp.Path.Pos()).Offset, fset.Position(imp.Path.End()).Offset, repl})
+			}
+			if len(edits) > 0 {
+				out := append([]byte{}, src...)
+				for i := len(edits) - 1; i >= 0; i-- {
+					e := edits[i]
+					out = append(append(append([]byte{}, out[:e.start]...), e.repl...), out[e.end:]...)
 				}
-				out := append([]byte{}, src[:start]...)
-				out = append(out, repl...)
-				out = append(out, src[end:]...)
-				rel, _ := filepath.Rel(o.repo, p)
 				dst := filepath.Join(ovDir, "sync", rel)
 				if err := os.MkdirAll(filepath.Dir(dst), 0o755); err != nil {
 					return err
